@@ -356,7 +356,16 @@ func (r *Runner) stmtSync(ctx context.Context, st *syntax.Stmt) {
 		}
 	}
 	if r.exit.ok() && st.Cmd != nil {
-		r.cmd(ctx, st.Cmd)
+		if st.Negated {
+			// Like in a condition, a failure inside a negated command
+			// must not trigger "errexit".
+			oldNoErrExit := r.noErrExit
+			r.noErrExit = true
+			r.cmd(ctx, st.Cmd)
+			r.noErrExit = oldNoErrExit
+		} else {
+			r.cmd(ctx, st.Cmd)
+		}
 	}
 	if st.Negated {
 		if r.exit.ok() {
